@@ -648,9 +648,11 @@ def _oracle_surface(case, fails):
     pres = [case["g"]] + [a["g"] for a in case.get("alts", [])]
     P0 = _nx(pres[0])
     n = P0.number_of_nodes()
+    base_sig = {}
     for be in BACKENDS:
         c1, c2 = M1.GraphCanonicaliser(backend=be), M2.GraphCanonicaliser(backend=be)
         s1 = c1.canonical_signature(P0)
+        base_sig[be] = s1
         # twin module, aliases, wrappers' accessors
         if c2.canonical_signature(_nx(pres[0])) != s1 or _abstract(c2.make_canonical_graph(_nx(pres[0]))) != _abstract(c1._make_canonical_graph(P0)):
             fails.append(_fail("sig-function/%s" % be, "synkit.Graph.Canon.canon_graph and synkit.Graph.canon_graph disagree; input %r" % (pres[0],)))
@@ -691,6 +693,10 @@ def _oracle_surface(case, fails):
                     fails.append(_fail("sig-sound/%s" % be, "options %r: equal signatures for non-isomorphic graphs A=%r B=%r" % (sorted(kw), pres[0], h)))
         if len(fails) >= 4:
             return
+    # defaults again after the non-default options and reduced selections ran on the same value in this process
+    for be in BACKENDS:
+        if M1.GraphCanonicaliser(backend=be).canonical_signature(_nx(pres[0])) != base_sig[be]:
+            fails.append(_fail("history/%s" % be, "default call after calls with non-default options / reduced attribute selections gives another signature; input %r" % (pres[0],)))
 
 
 def _fresh(G):
@@ -889,6 +895,27 @@ def _oracle_rule(case):
             fails.append(_fail("synrule-eq/%s" % be, "SynRules compare equal but their ITS graphs are not isomorphic: %s | %s" % (case["a"], case["b"])))
         if be == "nauty" and iso and not eq:
             fails.append(_fail("synrule-eq/nauty", "isomorphic rules compare unequal with the exact back-end: %s | %s" % (case["a"], case["b"])))
+        # options: canon=False (signatures on demand), mixed with canon=True objects; from_gml; CanonicalRule (GML round trip)
+        A0 = SynRule.from_smart(case["a"], "r0", c, canon=False)
+        B0 = SynRule.from_smart(case["b"], canonicaliser=c, canon=False, name="r1")
+        if (A0 == B0) != eq or (A0 == B) != eq or not (A0 == A) or hash(A0) != hash(A) or ((A0 == B0) and hash(A0) != hash(B0)):
+            fails.append(_fail("value-objects", "SynRule(canon=False) verdicts differ from canon=True / hashes inconsistent (%s): %s | %s" % (be, case["a"], case["b"])))
+        from synkit.IO.chem_converter import rsmi_to_its, its_to_gml
+        from synkit.Graph.canon_graph import CanonicalRule
+        ga, gb = its_to_gml(rsmi_to_its(case["a"])), its_to_gml(rsmi_to_its(case["b"]))
+        Ag = SynRule.from_gml(ga, canonicaliser=c)
+        if not (Ag == SynRule.from_gml(ga, "other-name", c)) or hash(Ag) != hash(SynRule.from_gml(ga, canonicaliser=c)):
+            fails.append(_fail("value-objects", "SynRule.from_gml of the same GML twice compares unequal (%s): %s" % (be, case["a"])))
+        ca, cb = CanonicalRule(ga, c), CanonicalRule(gb, c)
+        ciso = _iso(_cov(ca.original_graph), _cov(cb.original_graph)) is not None
+        na = ca.original_graph.number_of_nodes()
+        if sorted(ca.canonical_graph.nodes) != list(range(1, na + 1)) or ca.canonical_hash != c.canonical_signature(ca.canonical_graph) \
+                or not (ca == CanonicalRule(ga, c)) or hash(ca) != hash(CanonicalRule(ga, c)):
+            fails.append(_fail("value-objects", "CanonicalRule: ids not 1..N / hash is not the signature of the twin / not reproducible (%s): %s" % (be, case["a"])))
+        if (ca == cb) and not ciso:
+            fails.append(_fail("sig-sound/%s" % be, "CanonicalRule equal for non-isomorphic rule graphs: %s | %s" % (case["a"], case["b"])))
+        if be == "nauty" and ciso and not (ca == cb):
+            fails.append(_fail("nauty-invariant", "CanonicalRule differs for isomorphic rule graphs (nauty): %s | %s" % (case["a"], case["b"])))
     return fails[:3]
 
 
@@ -917,7 +944,8 @@ def _all_mutants(g):
             out.append(h)
     for i, (u, v, a) in enumerate(g["edges"]):
         h = cp()
-        h["edges"][i][2]["order"] = 2.0 if float(a.get("order", 1)) != 2.0 else 1.0
+        o = a.get("order", 1)
+        h["edges"][i][2]["order"] = [o[1], o[0] + 1.0] if isinstance(o, (list, tuple)) else (2.0 if float(o) != 2.0 else 1.0)
         out.append(h)
         h = cp()
         h["edges"][i][2]["standard_order"] = 1.0 if float(a.get("standard_order", 0)) != 1.0 else -1.0
